@@ -88,6 +88,25 @@ Definition req_greq (pre : predef) (cfg : config) (user : option name) (pol : po
   mkG (match user with Some u => gate_absent pol u | None => fun _ => false end)
       (prov_spec pre pol user) (fun s => s) (hsec cfg pol r).
 
+
+(* ---- batches of requests by several users ---- *)
+Definition breq := (option name * policy * request)%type.
+Definition breq_prog (fixed : bool) (pre : predef) (cfg : config) (b : breq) : prog store response :=
+  req_prog fixed pre cfg (fst (fst b)) (snd (fst b)) (snd b).
+Definition breq_greq (pre : predef) (cfg : config) (b : breq) : greq store response :=
+  req_greq pre cfg (fst (fst b)) (snd (fst b)) (snd b).
+
+(* the batch executed one request at a time, in the given order, under the specification [handle_pre] *)
+Definition serial_handle_step (pre : predef) (cfg : config) (reqs : list breq)
+                              (acc : store * list (nat * response)) (i : nat) : store * list (nat * response) :=
+  match nth_error reqs i with
+  | Some b => let r := handle_pre pre cfg (snd (fst b)) (fst (fst b)) (fst acc) (snd b) in
+              (fst r, snd acc ++ [(i, snd r)])
+  | None => acc
+  end.
+Definition serial_handle (pre : predef) (cfg : config) (reqs : list breq) (order : list nat) (s0 : store) :=
+  fold_left (serial_handle_step pre cfg reqs) order (s0, []).
+
 (* ---- worlds: several users, each with a policy table (as in HandlersCanon) ---- *)
 Record cworld := mkCW { cw_world : world; cw_pre : predef; cw_fixed : bool }.
 
